@@ -189,6 +189,24 @@ template<class T> struct Runner
   }
   static const size_t LMAX = 300;
 
+  // mixed element / scalar types: the scalar has type C (double for an int vector, int for a double vector)
+  template<class C> void mixed(const std::string& op, V& x, const C c, Out& oc, J& r)
+  {
+    using namespace bpp;
+    if (op == "AddSQ") oc = run([&] { r = jv(x + c).j(); });
+    else if (op == "SAddQ") oc = run([&] { r = jv(c + x).j(); });
+    else if (op == "SubSQ") oc = run([&] { r = jv(x - c).j(); });
+    else if (op == "SSubQ") oc = run([&] { r = jv(c - x).j(); });
+    else if (op == "MulSQ") oc = run([&] { r = jv(x * c).j(); });
+    else if (op == "SMulQ") oc = run([&] { r = jv(c * x).j(); });
+    else if (op == "DivSQ") oc = run([&] { r = jv(x / c).j(); });
+    else if (op == "SDivQ") oc = run([&] { r = jv(c / x).j(); });
+    else if (op == "AddEqSQ") oc = run([&] { x += c; });
+    else if (op == "SubEqSQ") oc = run([&] { x -= c; });
+    else if (op == "MulEqSQ") oc = run([&] { x *= c; });
+    else if (op == "DivEqSQ") oc = run([&] { x /= c; });
+  }
+
   // Executes op; returns false when the call is outside the quantifier or not encodable (nothing logged).
   bool call(const std::string& op, const std::string& xn = "-", const std::string& yn = "-", const std::string& zn = "-", std::vector<long> k = std::vector<long>())
   {
@@ -474,6 +492,28 @@ template<class T> struct Runner
           r = Arr().add(dyad(va, 12)).add(va != va ? 1 : 0).add(va < 0 ? 1 : 0).add(std::memcmp(&va, &cv, sizeof va) == 0 ? 1 : 0).add(sd != sd ? 1 : 0).j();
         });
     }
+    else if (op == "AddSQ" || op == "SAddQ" || op == "SubSQ" || op == "SSubQ" || op == "MulSQ" || op == "SMulQ" || op == "DivSQ" || op == "SDivQ" ||
+             op == "AddEqSQ" || op == "SubEqSQ" || op == "MulEqSQ" || op == "DivEqSQ")
+    {
+      // scalar k[0] / 4: a double for the int vector, an int (k[0] a multiple of 4) for the double vector
+      const long m = k[0];
+      const bool dv = op == "DivSQ" || op == "DivEqSQ", sdv = op == "SDivQ";
+      SKIP_UNLESS(!isDouble() || m % 4 == 0);
+      SKIP_UNLESS((!dv || m != 0) && (!sdv || !has0(x)));
+      FIT_UNLESS(4 * ax * (std::labs(m) + 4) <= 1e9L && std::labs(m) <= 1000000);
+      if (isDouble())
+      {
+        for (const auto& e : x)
+        {
+          long le = static_cast<long>(e);
+          if (dv) ok = ok && (4 * std::labs(le)) % std::labs(m) == 0;
+          if (sdv) ok = ok && std::labs(m) % (4 * std::labs(le)) == 0;
+        }
+        FIT_UNLESS(ok);
+        mixed<int>(op, x, static_cast<int>(m / 4), oc, r);
+      }
+      else mixed<double>(op, x, static_cast<double>(m) / 4.0, oc, r);
+    }
     else if (op == "MeanX" || op == "CenterX" || op == "CovX" || op == "VarX" || op == "SdX" || op == "CorX")
     {
       // unweighted moments of data offset by c = 2^e (last entry of k; 0: no offset): the two-pass
@@ -578,6 +618,13 @@ template<class T> struct Runner
         {
           if (!kall && i >= 3 && (s == 0 || s == 1)) continue; // arithmetic with -1 and 2 only
           call(scal[i], "a", "-", "-", {s});
+          ensure("a", v);
+        }
+      for (const char* op : {"AddSQ", "SAddQ", "SubSQ", "SSubQ", "MulSQ", "SMulQ", "DivSQ", "SDivQ", "AddEqSQ", "SubEqSQ", "MulEqSQ", "DivEqSQ"})
+        for (long m : {-10L, -6L, -2L, 1L, 2L, 3L, 4L, 10L, -8L})
+        {
+          if (!kall && m != -10 && m != 2 && m != 4) continue; // quick tier: -2.5, 0.5 and 1
+          call(op, "a", "-", "-", {m});
           ensure("a", v);
         }
       for (long eo : {0L, 30L, 40L})
@@ -772,6 +819,13 @@ template<class T> struct Runner
         {
           const V& v = regs[x];
           long s = (!v.empty() && rng.chance(2, 3)) ? static_cast<long>(v[rng.below(v.size())]) : rng.range(-5, 5);
+          static const char* q1[] = {"AddSQ", "SAddQ", "SubSQ", "SSubQ", "MulSQ", "SMulQ", "DivSQ", "SDivQ", "AddEqSQ", "SubEqSQ", "MulEqSQ", "DivEqSQ"};
+          if (rng.chance(1, 4))
+          {
+            long m = rng.coin() ? 4 * rng.range(-6, 6) : rng.range(-30, 30);
+            call(q1[rng.below(12)], x, "-", "-", {m});
+            continue;
+          }
           static const char* e1[] = {"AddEqE", "SubEqE", "MulEqE", "DivEqE"};
           if (!v.empty() && rng.chance(1, 4)) call(e1[rng.below(4)], x, "-", "-", {static_cast<long>(rng.below(v.size()))});
           else call(s1[rng.below(sizeof s1 / sizeof *s1)], x, "-", "-", {s});
